@@ -74,6 +74,10 @@ pub trait Lab<C: Ciphersuite> {
     fn depends_on_draw(&mut self, out: Scalar<C>, k: usize, what: &str) -> bool;
     /// the scalar a uniform-scalar request number `k` produced (symbolic: its variable)
     fn draw_scalar(&mut self, k: usize) -> Option<Scalar<C>>;
+    /// the bytes the random source returned for request number `k`
+    fn draw_bytes(&mut self, k: usize) -> Option<Vec<u8>>;
+    /// byte strings are equal: literal parts byte for byte, embedded values by rule ID
+    fn eq_bytes(&mut self, a: &[u8], b: &[u8], what: &str) -> bool;
     /// free-form note into the evidence
     fn note(&mut self, s: &str) {
         let _ = s;
